@@ -28,6 +28,31 @@ fn parts_ctx(w: &World, i: usize) -> u64 {
     (p.min(3) as u64) | ((c.min(3) as u64) << 2) | ((f.min(3) as u64) << 4) | ((w.node.pay_running(&w.hashes[i].hex) as u64) << 6)
 }
 
+/// A trampoline HTLC whose delivery commutes, in the reference model, with the delivery of another
+/// such HTLC of the same hash: same invoice and amount as the set it joins (or opens), and no
+/// reason to reject the set (expiry, declared total).
+pub fn commuting_part(w: &World, u: usize) -> bool {
+    let (amount, bolt11) = match &w.htlcs[u].spec.label {
+        RefLabel::Tramp { amount_msat, bolt11, .. } => (*amount_msat, bolt11.clone()),
+        _ => return false,
+    };
+    let i = match w.htlcs[u].hidx {
+        Some(i) => i,
+        None => return false,
+    };
+    if let Some(first) = w.sets[i].first {
+        if !w.held(i).is_empty() {
+            match &w.htlcs[first].spec.label {
+                RefLabel::Tramp { amount_msat: a0, bolt11: b0, .. } if *a0 == amount && *b0 == bolt11 => {}
+                _ => return false,
+            }
+        }
+    }
+    let rel = w.htlcs[u].spec.cltv_expiry as i64 - w.node.height as i64;
+    let declared = w.htlcs[u].spec.total_msat.or(w.htlcs[u].spec.forward_msat).unwrap_or(0);
+    rel >= w.cfg.policy_delta as i64 && w.fee_ok(declared as u128, amount)
+}
+
 /// Called when a Tramp-labelled HTLC for hash `i` is about to be delivered.
 pub fn on_deliver_tramp(w: &mut World, u: usize, i: usize, rel_expiry: i64) {
     let held_before = w.held(i);
